@@ -42,7 +42,7 @@ def run(ctx):
     for i in range(nb):
         p = D.batch_params(rng)
         if i % 3 != 0:
-            C.choose(rng, p, C.BATCH_KINDS)
+            C.choose(rng, p, C.BATCH_KINDS + C.LOOSE_BATCH_KINDS)
         n = rng.randint(6, 12)
         bs = D.batch_sequence(rng, n, rng.randint(1, 3))
         if i % 8 == 5:
